@@ -10,7 +10,10 @@ spec = {
   "bases": [ids], "slots": None | [names as written], "kind": "bean" | "serial" | "enum" | "decimal" | "raising",
   "own": [(name as written, value)]              bean: assigned by __init__ after the bases' __init__
   "method", "by_dict", "params", "attrs"         serial
-  "members": [(name, value)]                     enum
+  "members": [(name, value)]                     enum (a later member with the value of an earlier one is an alias)
+  "flavour": "Enum" | "Flag" | "IntEnum" | "StrEnum" | "IntFlag"   enum (default "Enum"); the last three derive from a
+                                                 primitive type: their members are transmitted as that primitive
+  "auto": [member names]                         enum: members whose value is written `enum.auto()`
   "raises": exception class name                 raising: the constructor raises it whatever it is given
   "class_attrs": {name: value}                   own class-level data attributes (e.g. the ignore list)
 }
@@ -37,6 +40,42 @@ DEC_SPEC = {"id": DEC_ID, "module": "decimal", "name": "Decimal", "bases": [], "
             "class_attrs": {}}
 
 
+ENUM_FLAVOURS = {"Enum": enum.Enum, "Flag": enum.Flag, "IntEnum": enum.IntEnum, "StrEnum": enum.StrEnum,
+                 "IntFlag": enum.IntFlag}
+PRIM_FLAVOURS = {"IntEnum": int, "StrEnum": str, "IntFlag": int}
+
+
+def make_enum(s):
+    """The real enumeration class of an enum spec (functional API, so that Python builds members, aliases, `auto()` values and
+    flag combinations itself)."""
+    base = ENUM_FLAVOURS[s.get("flavour", "Enum")]
+    auto = set(s.get("auto", []))
+    return base(s["name"], [(n, enum.auto() if n in auto else v) for n, v in s["members"]], module=s["module"])
+
+
+def enum_name(member):
+    """`member.name`; the empty flag and unnamed combinations have none."""
+    return member.name if member.name is not None else ""
+
+
+def enum_table(c, s):
+    """[(name, value)] for every value the enumeration accepts (`c(value)`): the canonical members — and, for a Flag, every
+    combination of them, the empty one included (named `A|B` by Python, or by an alias that is defined for the combination)."""
+    if s.get("flavour") in ("Flag", "IntFlag"):
+        vals = set([0])
+        for m in c.__members__.values():
+            vals |= set(v | m.value for v in vals)
+        out = []
+        for v in sorted(vals):
+            try:
+                m = c(v)
+            except ValueError:
+                continue
+            out.append((enum_name(m), m.value))
+        return out
+    return [(m.name, m.value) for m in c]
+
+
 def mangled(clsname, written):
     if written.startswith("__") and not written.endswith("__"):
         stripped = clsname.lstrip("_")
@@ -53,6 +92,7 @@ class Env(object):
         self.ids = {}
         self.extra_mods = list(extra_mods)
         self._installed = []
+        self._twins = {}
         self._build()
 
     # ---- construction of the real classes ---------------------------------------------------
@@ -61,11 +101,40 @@ class Env(object):
             if s["kind"] == "decimal":
                 c = decimal.Decimal
             elif s["kind"] == "enum":
-                c = enum.Enum(s["name"], list(s["members"]), module=s["module"])
+                c = make_enum(s)
             else:
                 c = self._exec_class(s)
             self.cls[s["id"]] = c
             self.ids[c] = s["id"]
+
+    # ---- stale definitions: another class object made from the same description (same __name__, same module) -----------
+    STALE = "~stale"
+
+    def ref(self, ref):
+        """The class a registry statement names: a class id, or `<class id>~stale` — a *different* class object built from
+        the same description (what is left in a long-running process of a class that was defined again)."""
+        if ref.endswith(self.STALE):
+            if ref not in self._twins:
+                s = self.by_id[ref[:-len(self.STALE)]]
+                self._twins[ref] = make_enum(s) if s["kind"] == "enum" else self._exec_class(s)
+            return self._twins[ref]
+        return self.cls[ref]
+
+    def ref_of(self, c):
+        """Inverse of `ref` (None for a class this environment does not know)."""
+        if c in self.ids:
+            return self.ids[c]
+        for r, t in self._twins.items():
+            if t is c:
+                return r
+        return None
+
+    def prim_base(self, v):
+        """int / str for a member of an enumeration derived from that primitive type, else None."""
+        cid = self.ids.get(type(v))
+        if cid is None or self.by_id[cid]["kind"] != "enum":
+            return None
+        return PRIM_FLAVOURS.get(self.by_id[cid].get("flavour", "Enum"))
 
     def _exec_class(self, s):
         bases = [self.cls[b] for b in s["bases"]]
@@ -173,7 +242,7 @@ class Env(object):
         if cid is None:
             return None
         if self.by_id[cid]["kind"] == "enum":
-            return (cid, [("name", v.name), ("value", v.value)])
+            return (cid, [("name", enum_name(v)), ("value", v.value)])
         return (cid, self.stored(v))
 
     def enc(self, v, canon=False):
@@ -192,6 +261,10 @@ class Env(object):
         out = []
         for s in reversed(self.specs):  # children first
             c = self.cls[s["id"]]
+            if s["kind"] == "enum" and s.get("flavour") in PRIM_FLAVOURS:
+                # derived from a primitive type: its members are primitives for the code (`isinstance(obj, PRIMITIVE_TYPES)`),
+                # outside the class universe of the model; values that hold one are judged by the monitors only
+                continue
             if s["kind"] == "bean":
                 kind = ["bean", dict(self.stored(c()))]
             elif s["kind"] == "serial":
@@ -199,7 +272,7 @@ class Env(object):
                 base = dict((n, x) for n, x in self.stored(probe) if n not in s["params"])
                 kind = ["serial", s["method"], bool(s["by_dict"]), list(s["params"]), list(s["attrs"]), base]
             elif s["kind"] == "enum":
-                kind = ["enum", dict(s["members"])]
+                kind = ["enum", dict(enum_table(c, s))]
             elif s["kind"] == "raising":
                 kind = ["raising", s["raises"]]
             else:
@@ -271,7 +344,7 @@ def rand_prim(rng, gen):
 
 
 def gen_specs(rng, gen, tag, n_classes=None, ignore_attr="_ignore", method="_serialize", local_ratio=0.35,
-              with_ignore=0.0):
+              with_ignore=0.0, flavours=False):
     """
     Random hierarchy: 3-7 user classes (+ an enum, + Decimal), inheritance depth 0-3, slots/dict mixed,
     public/protected/name-mangled field names, serial classes with list or dict constructor arguments.
@@ -344,10 +417,72 @@ def gen_specs(rng, gen, tag, n_classes=None, ignore_attr="_ignore", method="_ser
         # values that are not primitives: a list (plain JSON: survives a remote call) and a tuple (JSON turns it into a
         # list, which is not a value of the enumeration any more: outside the domain of the RPC clause)
         members += [("LST", [1, "x"]), ("PAIR", (1, 2))] if rng.random() < 0.7 else [("LST", [2, {"k": None}])]
+    if flavours:
+        # every flavour of enumeration: one or two more classes per environment (before the two standard entries)
+        for j in range(rng.randint(1, 2)):
+            specs.append(gen_enum_spec(rng, tag, j, rng.choice(mods)))
+        if rng.random() < 0.5:
+            members = members + [("AZURE", 1)]  # an alias: Colour.AZURE is Colour.BLUE
     specs.append({"id": "e_%s" % tag, "module": emod, "name": "Colour%s" % tag.capitalize(), "bases": [], "slots": None,
                   "kind": "enum", "members": members, "class_attrs": {}})
     specs.append(dict(DEC_SPEC))
     return specs
+
+
+ENUM_FLAVOUR_POOL = ["Flag", "Flag", "Flag", "Enum", "IntEnum", "StrEnum", "IntFlag"]
+
+
+def gen_enum_spec(rng, tag, j, module):
+    """An enumeration of a random flavour: Enum (aliases, auto() values, unhashable values), Flag (auto() or explicit bits, also
+    non-contiguous; named combinations; a named empty flag), IntEnum / StrEnum / IntFlag (derived from a primitive type)."""
+    flavour = rng.choice(ENUM_FLAVOUR_POOL)
+    spec = {"id": "f%d_%s" % (j, tag), "module": module, "name": "%s%d%s" % (flavour, j, tag.capitalize()), "bases": [],
+            "slots": None, "kind": "enum", "flavour": flavour, "class_attrs": {}, "auto": []}
+    if flavour in ("Flag", "IntFlag"):
+        style = rng.choice(["auto", "explicit", "sparse", "mixed"])
+        names = ["R", "W", "X", "D"][:rng.randint(1, 4)]
+        if style == "auto":
+            members = [(n, None) for n in names]
+            spec["auto"] = list(names)
+        elif style == "explicit":
+            members = [(n, 1 << i) for i, n in enumerate(names)]
+        elif style == "sparse":
+            members = [(n, 1 << (2 * i + 1)) for i, n in enumerate(names)]  # 2, 8, 32, …: bit 0 and others are undefined
+        else:
+            members = [(names[0], 1)] + [(n, None) for n in names[1:]]
+            spec["auto"] = list(names[1:])
+        bits = [1 << i for i in range(len(names))] if style != "sparse" else [1 << (2 * i + 1) for i in range(len(names))]
+        if len(names) >= 2 and rng.random() < 0.5:
+            members.append(("RW", bits[0] | bits[1]))  # a named combination
+        if rng.random() < 0.3:
+            members.append(("NONE", 0))  # a named empty flag
+        if rng.random() < 0.3:
+            members.append(("READ", bits[0]))  # an alias of a single flag
+    elif flavour == "Enum":
+        members = [("A", 1)]
+        if rng.random() < 0.6:
+            members += [("G", None), ("H", None)]
+            spec["auto"] = ["G", "H"]  # auto() after the int 1: 2, 3
+        members += [("B", "b"), ("C", None)]
+        if rng.random() < 0.6:
+            members.append(("A2", 1))  # alias
+        if rng.random() < 0.4:
+            members.append(("L", [1, {"k": "v"}]))  # unhashable value: found by linear search
+        if rng.random() < 0.3:
+            members.append(("F", 2.5))
+    elif flavour == "IntEnum":
+        members = [("ONE", 1), ("TWO", 2)]
+        if rng.random() < 0.5:
+            members.append(("NEXT", None))  # auto(): 3
+            spec["auto"] = ["NEXT"]
+        members += [("BIG", 2 ** 40), ("NEG", -3), ("UNO", 1)]
+    else:  # StrEnum
+        members = [("A", "a"), ("E", ""), ("U", "\u00e9 x"), ("ALIAS", "a")]
+        if rng.random() < 0.5:
+            members.append(("LOWER", None))  # auto(): the lower-cased name
+            spec["auto"] = ["LOWER"]
+    spec["members"] = members
+    return spec
 
 
 def _written_names(specs, cid):
@@ -373,7 +508,35 @@ def _related(specs, a, b):
     return a in anc(b) or b in anc(a)
 
 
-DECIMALS = ["0", "1.10", "-12.5", "3.20", "100", "-0", "0.001", "123456789012345678901234567890.5"]
+DECIMALS = ["0", "1.10", "-12.5", "3.20", "100", "-0", "0.001", "123456789012345678901234567890.5",
+            # special values and the other notations `str` of a Decimal can produce
+            "Infinity", "-Infinity", "NaN", "-NaN", "sNaN", "NaN123", "-sNaN7", "-0.00", "0.000001", "1E-7", "0E-10",
+            "0E+3", "-0E+2", "1E+100", "-1.5E-7", "9.99E+384", "1E-100", "1.0E+2", "1.234567E+30"]
+
+
+def decimal_class(d):
+    """Which kind of Decimal (for the distribution histogram)."""
+    if d.is_snan():
+        return "snan"
+    if d.is_nan():
+        return "nan"
+    if d.is_infinite():
+        return "infinity"
+    if d.is_zero():
+        return "zero-neg" if d.is_signed() else "zero"
+    return "finite-sci" if "E" in str(d) else "finite-plain"
+
+
+def enum_member_class(m):
+    """Which kind of enumeration member (for the distribution histogram)."""
+    c = type(m)
+    if isinstance(m, enum.Flag):
+        if m.value == 0:
+            return "empty"
+        if m.name is not None and "|" not in m.name:
+            return "named-combination" if bin(m.value).count("1") > 1 else "single"
+        return "combination"
+    return "member"
 
 
 class ValueGen(object):
@@ -434,6 +597,19 @@ class ValueGen(object):
             return set(self.hashable(1) for _ in range(n))
         return frozenset(self.hashable(1) for _ in range(n))
 
+    def enum_member(self, cid):
+        """A member by one of its names (aliases included); for a Flag also a combination of members or the empty flag."""
+        rng = self.rng
+        s = self.env.by_id[cid]
+        c = self.env.cls[cid]
+        names = [m for m, _v in s["members"]]
+        if s.get("flavour") in ("Flag", "IntFlag") and rng.random() < 0.5:
+            m = c(0)
+            for n in rng.sample(names, rng.randint(0, len(names))):
+                m = m | c[n]
+            return m
+        return c[rng.choice(names)]
+
     def instance(self, depth, cid=None):
         rng = self.rng
         env = self.env
@@ -444,7 +620,7 @@ class ValueGen(object):
         if s["kind"] == "decimal":
             return decimal.Decimal(rng.choice(DECIMALS))
         if s["kind"] == "enum":
-            return c[rng.choice([m for m, _v in s["members"]])]
+            return self.enum_member(cid)
         if s["kind"] == "serial":
             inst = c(*[self.serial_arg() for _ in s["params"]])
             for a in s["attrs"]:
@@ -466,6 +642,109 @@ class ValueGen(object):
         if hasattr(inst, "__dict__") and rng.random() < 0.2:
             setattr(inst, "extra_%d" % rng.randint(0, 2), self.value(depth, True, obj_top=False))
         return inst
+
+
+# ---- the local class table (Config.classes, a config.LocalClasses) as a program builds it ----------------------------------
+#
+# A registry program is a list of statements on one LocalClasses object:
+#   ["add", ref, name | None]   classes.add(cls, name)          ["set", key, ref]   classes[key] = cls
+#   ["del", key]                classes.pop(key, None)          ["clear"]           classes.clear()
+# `ref` is a class id of the environment or `<class id>~stale` (Env.ref).
+
+STALE = Env.STALE
+
+
+def _base_id(ref):
+    return ref[:-len(STALE)] if ref.endswith(STALE) else ref
+
+
+def registry_program(rng, env, targets, plain=False):
+    """Registers every class of `targets` under its own name — plainly (one `add` each), or the way a long-running program
+    does: a stale definition or another class registered under the name first, registrations removed and made again, aliases,
+    an emptied table, explicit / empty / omitted names, direct stores.  Now and then the current class ends up displaced."""
+    ops = []
+    if plain:
+        for cid in targets:
+            ops.append(["add", cid, None if rng.random() < 0.5 else env.by_id[cid]["name"]])
+        return ops
+    order = list(targets)
+    rng.shuffle(order)
+    if order and rng.random() < 0.15:
+        ops.append(["add", order[0] + STALE, None])
+        ops.append(["clear"])
+    for k, cid in enumerate(order):
+        name = env.by_id[cid]["name"]
+        r = rng.random()
+        if r < 0.4:
+            ops.append(rng.choice([["add", cid + STALE, None], ["add", cid + STALE, name], ["set", name, cid + STALE]]))
+        elif r < 0.5 and len(order) > 1:
+            ops.append(["add", rng.choice([c for c in order if c != cid]), name])
+        elif r < 0.6:
+            ops.append(["add", cid, None])
+            ops.append(["del", name])
+        elif r < 0.65:
+            ops.append(["del", name])
+        ops.append(rng.choice([["add", cid, None], ["add", cid, None], ["add", cid, name], ["add", cid, ""], ["set", name, cid]]))
+        if rng.random() < 0.2:
+            alias = "Alias%d" % k
+            ops.append(["add", rng.choice([cid, cid + STALE]), alias])
+            if rng.random() < 0.5:
+                ops.append(["del", alias])
+    if order and rng.random() < 0.06:
+        ops.append(["add", rng.choice(order) + STALE, None])
+    return ops
+
+
+def registry_expected(env, ops):
+    """name -> ref after the program, from what the statements mean: a registration binds the name to the class it is given
+    (the last one under a name is the one in force), a removal unbinds it."""
+    tab = {}
+    for op in ops:
+        if op[0] == "add":
+            tab[op[2] or env.by_id[_base_id(op[1])]["name"]] = op[1]
+        elif op[0] == "set":
+            tab[op[1]] = op[2]
+        elif op[0] == "del":
+            tab.pop(op[1], None)
+        else:
+            tab.clear()
+    return tab
+
+
+def registry_apply(env, classes, ops):
+    """Runs the program on a real LocalClasses object."""
+    for op in ops:
+        if op[0] == "add":
+            classes.add(env.ref(op[1]), op[2])
+        elif op[0] == "set":
+            classes[op[1]] = env.ref(op[2])
+        elif op[0] == "del":
+            classes.pop(op[1], None)
+        else:
+            classes.clear()
+    return classes
+
+
+def registry_view(env, classes):
+    """[[name, ref]] of a real class table, in dict order."""
+    return [[n, env.ref_of(c) or ("?" + getattr(c, "__name__", repr(c)))] for n, c in classes.items()]
+
+
+def registry_lean(env, ops):
+    """The program as the argument of the driver component `jcregistry`."""
+    out = []
+    for op in ops:
+        if op[0] == "add":
+            out.append(["add", op[1], env.by_id[_base_id(op[1])]["name"], op[2]])
+        else:
+            out.append(list(op))
+    return out
+
+
+def registry_displaced(env, ops, targets):
+    """The classes of `targets` that are not the ones in force under their name after the program."""
+    exp = registry_expected(env, ops)
+    return [cid for cid in targets if exp.get(env.by_id[cid]["name"]) != cid]
 
 
 def normalise(v, env):
@@ -516,6 +795,13 @@ def same(a, b, env, path="value"):
                 return r
         return None
     if type(a) in env.ids or type(a) is decimal.Decimal:
+        base = env.prim_base(a)
+        if base is not None:
+            # a member of an enumeration derived from a primitive type is "transmitted as that primitive": the member
+            # itself (nothing re-built it), or the plain int / str with its value
+            if b is a or (type(b) is base and b == a.value):
+                return None
+            return "%s: expected %r or the %s %r, got %r (%s)" % (path, a, base.__name__, a.value, b, type(b).__name__)
         if type(b) is not type(a):
             return "%s: expected an instance of %s, got %r" % (path, type(a).__name__, b)
         if isinstance(a, (enum.Enum, decimal.Decimal)):
